@@ -138,6 +138,13 @@ func c17Cases() []retCase {
 		{"edi/failing-transform", schI("edi", `{"segment_delimiter": "~", "element_delimiter": "*", "segment_declarations": [
 		   {"name": "HDR", "min": 0, "max": -1, "is_target": true, "elements": [{"name": "v", "index": 1}],
 		     "child_segments": [{"name": "ITM", "min": 0, "max": -1, "elements": [{"name": "w", "index": 1}]}]}]}`, ""), "", "", alt("HDR*1~ITM*x~", "HDR*bad~ITM*y~ITM*z~"), 1},
+		// targets without any content (no element, no attribute, no value): nothing to hold on to, still to be let go
+		{"xml/childless-targets", sch("xml", "", "/root/e"), "<root><hdr>h</hdr>", "</root>", func(int) string { return "<e/>" }, 1},
+		{"xml/childless-targets-filtered", sch("xml", "", "/root/e[not(v)]"), "<root>", "</root>", alt("<e/>", "<e><v>1</v></e>"), 1},
+		{"json/childless-targets", sch("json", "", "/recs/*"), `{"recs": [`, `{}]}`, alt(`{},`, `[],`), 1},
+		{"json/childless-targets-filtered", sch("json", "", "/recs/*[not(v)]"), `{"recs": [`, `{}]}`, alt(`{},`, `{"v": "1"},`), 1},
+		{"edi/childless-targets", sch("edi", `{"segment_delimiter": "~", "element_delimiter": "*", "segment_declarations": [
+		   {"name": "ISA", "child_segments": [{"name": "HDR", "min": 0, "max": -1, "is_target": true}, {"name": "IEA"}]}]}`, ""), "ISA*0~", "IEA*0~", func(int) string { return "HDR~" }, 1},
 		{"edi/filtered", sch("edi", `{"segment_delimiter": "~", "element_delimiter": "*", "segment_declarations": [
 		   {"name": "HDR", "min": 0, "max": -1, "is_target": true, "elements": [{"name": "v", "index": 1}]}]}`, ".[v='1']"), "", "", alt("HDR*1~", "HDR*2~"), 1},
 	}
